@@ -18,6 +18,7 @@ type hEvent struct {
 	added, removed   Mask
 	nAdded, nRemoved int
 	idsOK            bool
+	containsOK       bool
 	hasOld, hasNew   bool
 	oldRel, newRel   ID
 	oldTarget        Entity
@@ -57,6 +58,12 @@ func (r *hRec) Notify(w *World, e EntityEvent) {
 	for _, id := range e.RemovedIDs {
 		if !e.Removed.Get(id) {
 			ev.idsOK = false
+		}
+	}
+	ev.containsOK = true
+	for _, bit := range [6]event.Subscription{event.EntityCreated, event.EntityRemoved, event.ComponentAdded, event.ComponentRemoved, event.RelationChanged, event.TargetChanged} {
+		if e.Contains(bit) != (e.EventTypes&bit != 0) {
+			ev.containsOK = false
 		}
 	}
 	if e.OldRelation != nil {
@@ -183,6 +190,7 @@ func (x *hW) checkEvents(r *hRec, before *hSnap, wasReset bool) {
 		vAssert(ev.added == x.maskOf(added), "Added is the set of added components")
 		vAssert(ev.removed == x.maskOf(rem), "Removed is the set of removed components")
 		vAssert(ev.idsOK && ev.nAdded == hPop(added) && ev.nRemoved == hPop(rem), "AddedIDs / RemovedIDs equal the masks as sets")
+		vAssert(ev.containsOK, "EntityEvent.Contains reports exactly the type bits of the event")
 		vAssert(ev.hasOld == (brel >= 0), "OldRelation is nil exactly without an old relation")
 		vAssert(ev.hasNew == (arel >= 0), "NewRelation is nil exactly without a new relation")
 		if brel >= 0 && ev.hasOld {
